@@ -41,6 +41,17 @@ fn small<T: Code>(v: &T) -> String {
     }
 }
 
+/// A reader that hands out at most `1` .. `self.1` bytes per `read` call (as stream decoders and sockets do).
+struct Chunked<'a>(&'a [u8], usize);
+impl std::io::Read for Chunked<'_> {
+    fn read(&mut self, buf: &mut [u8]) -> std::io::Result<usize> {
+        let n = buf.len().min(self.1).min(self.0.len());
+        buf[..n].copy_from_slice(&self.0[..n]);
+        self.0 = &self.0[n..];
+        Ok(n)
+    }
+}
+
 macro_rules! uint_item {
     ($out:expr, $t:ty, $name:expr, $v:expr) => {{
         let v: $t = $v;
@@ -110,8 +121,13 @@ pub fn main(args: &Args) -> i32 {
         let bb = bytes::Bytes::from(data.clone());
         let b2 = enc(&bb);
         let back2 = bytes::Bytes::decode(&mut b2.as_slice()).ok();
+        // the same bytes through a reader that returns short reads
+        let chunk = 1 + (i as usize % 7);
+        let back3 = Vec::<u8>::decode(&mut Chunked(&b, chunk)).ok();
+        let back4 = bytes::Bytes::decode(&mut Chunked(&b2, chunk)).ok();
         let _ = writeln!(out, "item t=vec data={} hex={} rt={} small={} est={} same_as_bytes={}", hex(&data), hex(&b),
-            (back.as_ref() == Some(&data) && back2.as_ref() == Some(&bb)) as u8, small(&data), data.estimated_size(), (b == b2) as u8);
+            (back.as_ref() == Some(&data) && back2.as_ref() == Some(&bb) && back3.as_ref() == Some(&data) && back4.as_ref() == Some(&bb)) as u8,
+            small(&data), data.estimated_size(), (b == b2) as u8);
         // truncated input must be an error, never a shorter value
         if b.len() > 8 {
             let cut = rng.range(8, b.len() as u64 - 1) as usize;
@@ -123,7 +139,9 @@ pub fn main(args: &Args) -> i32 {
         let st = s.to_string();
         let b = enc(&st);
         let back = String::decode(&mut b.as_slice()).ok();
-        let _ = writeln!(out, "item t=string data={} hex={} rt={} small={} est={}", hex(s.as_bytes()), hex(&b), (back.as_ref() == Some(&st)) as u8, small(&st), st.estimated_size());
+        let backc = String::decode(&mut Chunked(&b, 3)).ok();
+        let _ = writeln!(out, "item t=string data={} hex={} rt={} small={} est={}", hex(s.as_bytes()), hex(&b),
+            (back.as_ref() == Some(&st) && backc.as_ref() == Some(&st)) as u8, small(&st), st.estimated_size());
     }
     for bad in [vec![0xffu8], vec![0xc3, 0x28], vec![0x61, 0x80], vec![0xf0, 0x28, 0x8c, 0x28]] {
         let mut b = enc(&bad.len());
@@ -134,7 +152,9 @@ pub fn main(args: &Args) -> i32 {
     // whole entries through EntrySerializer / header / EntryDeserializer
     for i in 0..n {
         let key: u64 = rng.next();
-        let vlen = match i % 6 { 0 => 0, 1 => 1, 2 => PAGE - 36 - 8 - 8, 3 => PAGE - 36 - 8 - 8 + 1, 4 => rng.range(2, 300) as usize, _ => rng.range(300, 9000) as usize };
+        // every 16th entry is large enough for the stream decoders to deliver it in several reads
+        let vlen = if i % 16 == 15 { *rng.pick(&[40_000usize, 70_000, 140_000]) } else {
+            match i % 6 { 0 => 0, 1 => 1, 2 => PAGE - 36 - 8 - 8, 3 => PAGE - 36 - 8 - 8 + 1, 4 => rng.range(2, 300) as usize, _ => rng.range(300, 9000) as usize } };
         let compressible = rng.chance(1, 2);
         let value: Vec<u8> = (0..vlen).map(|j| if compressible { (j % 7) as u8 } else { rng.next() as u8 }).collect();
         for comp in [Compression::None, Compression::Zstd, Compression::Lz4] {
@@ -148,7 +168,10 @@ pub fn main(args: &Args) -> i32 {
             header.write(&mut hb.as_mut_slice());
             let hback = EntryHeader::read(hb.as_slice()).ok();
             let back: Option<(u64, Vec<u8>)> = EntryDeserializer::deserialize(&payload, info.key_len, info.value_len, comp, Some(checksum)).ok();
-            let rt = (back.as_ref() == Some(&(key, value.clone())) && hback.as_ref() == Some(&header)) as u8;
+            // the same stored bytes decoded as a `Bytes` value
+            let backb: Option<(u64, bytes::Bytes)> = EntryDeserializer::deserialize(&payload, info.key_len, info.value_len, comp, Some(checksum)).ok();
+            let rt = (back.as_ref() == Some(&(key, value.clone())) && hback.as_ref() == Some(&header)
+                && backb.as_ref().map(|(k, v)| (*k, v.to_vec())) == Some((key, value.clone()))) as u8;
             let cname = match comp { Compression::None => "none", Compression::Zstd => "zstd", Compression::Lz4 => "lz4" };
             if matches!(comp, Compression::None) && vlen <= 300 {
                 let _ = writeln!(out, "item t=entry comp=none hash={hash} seq={seq} key={key} vdata={} klen={} vlen={} checksum={checksum} hex={}{} rt={rt}",
